@@ -204,6 +204,16 @@ OVERRIDES = {
          "outside it validate deviates from the statement -- known finding KF12, reported by the bounded part. Trusted: z3, the pyvc "
          "translator, the data-model assumption that module sentinels (NoValue) are never container elements, write_data[anydatum]."),
    technique="contract-based deductive verification (AST->VC, z3) of every validator incl. exceptional postconditions; bounded differential check against the same executable predicate"),
+ "C13": dict(cat="other", design="0.3, 0.10, 7/C13",
+   text=("Deductive: _to_parsing_canonical_form (the recursive writer behind to_parsing_canonical_form) appends exactly PCF(schema) "
+         "for every parsed schema -- PCF being the Avro specification's transformation written as specification functions "
+         "(primitives in simple form, name/type/fields/symbols/items/values/size only and in that order, no whitespace, plain "
+         "decimal integers, commas between list elements); all obligations discharged (three loops, recursion by contract). "
+         "Not deductive: the parse_schema step that substitutes full names and drops namespaces, the fixed-point and same-encoding "
+         "consequences and the invariance under cosmetic edits -- bounded stand-in against an independent implementation of the rules."),
+   note=("Trusted: z3, pyvc translator, io.StringIO model, str() of str / int values (str_of_int external). Domain: schemas of the shape "
+         "parse_schema produces (CANON_WF); names and symbols are written unescaped, as the code does (Avro names need no escaping)."),
+   technique="contract-based deductive verification (AST->VC, z3 sequence/string theory) of the canonical-form writer; bounded differential check against an independent canonicaliser"),
  "C14": dict(cat="proof", design="0.3, 7/C14",
    text=("rabin_fingerprint: the table is produced by executing the real construction loops; the main loop's invariant "
          "result == RABIN(data[:i]) against the specification's bit-by-bit polynomial division is discharged over 64-bit vectors for "
